@@ -744,6 +744,26 @@ class Interp:
             r = self.method_hooks[name](self, n)
             if r is not NotImplemented:
                 return r
+        if name == "contains" and len(n["args"]) == 1:
+            rp = n["recv"]
+            while isinstance(rp, dict) and rp.get("k") in ("Paren", "DropTemps", "Use", "Ref"):
+                rp = rp.get("e")
+            lo = hi = None
+            incl = False
+            if isinstance(rp, dict) and rp.get("k") == "Struct" and (rp.get("def") or "").endswith(("ops::Range", "ops::RangeFrom", "ops::RangeTo")):
+                f_ = {x["name"]: x["e"] for x in rp["fields"]}
+                lo, hi = f_.get("start"), f_.get("end")
+            elif isinstance(rp, dict) and rp.get("k") == "Call" and (callee(rp) or "").endswith("RangeInclusive::<Idx>::new"):
+                lo, hi, incl = rp["args"][0], rp["args"][1], True
+            if lo is not None or hi is not None:
+                x = self.num(self.ev(n["args"][0]), n)
+                conds = []
+                if lo is not None:
+                    conds.append(sp.Le(self.num(self.ev(lo), n), x))
+                if hi is not None:
+                    h = self.num(self.ev(hi), n)
+                    conds.append(sp.Le(x, h) if incl else sp.Lt(x, h))
+                return sp.And(*conds)
         if name in TRANSPARENT_METHODS:
             v = self.ev(n["recv"])
             if name == "real" and hasattr(v, "atoms") and v.atoms(sp.core.function.AppliedUndef):
@@ -848,6 +868,21 @@ class Interp:
             if getattr(a, "is_Integer", False) and getattr(b, "is_Integer", False) and int(b) - int(a) <= self.unroll_limit:
                 return [sp.Integer(i) for i in range(int(a), int(b) + 1)]
             return None
+        if it.get("k") == "MCall" and it["name"] == "zip" and len(it.get("args", [])) == 1:
+            # an open range `a..` zipped with a finite sequence (either way round) is as long as that sequence
+            def open_start(x):
+                x = peel(x)
+                if x.get("k") == "Struct" and (x.get("def") or "").endswith("ops::RangeFrom"):
+                    a = self.ev({f["name"]: f["e"] for f in x["fields"]}["start"])
+                    return int(a) if getattr(a, "is_Integer", False) else None
+                return None
+            a0, b0 = open_start(it["recv"]), open_start(it["args"][0])
+            if a0 is not None and b0 is None:
+                other = self.iter_values(it["args"][0])
+                return None if other is None else [(sp.Integer(a0 + i), v) for i, v in enumerate(other)]
+            if b0 is not None and a0 is None:
+                inner0 = self.iter_values(it["recv"])
+                return None if inner0 is None else [(v, sp.Integer(b0 + i)) for i, v in enumerate(inner0)]
         if it.get("k") == "MCall":
             nm = it["name"]
             inner = self.iter_values(it["recv"]) if nm in ("iter", "into_iter", "iter_mut", "enumerate", "rev", "skip", "take", "zip", "copied", "cloned") else None
